@@ -33,7 +33,7 @@ ITEMS = [
  ("f6", ["gte"], 1.5), ("f7", ["re"], "^a.*b$"), ("f8", ["cidr"], "192.168.129.0/31"), ("f9", ["all"], ["a", "b"]),
  ("g1", ["contains"], "a*b"), ("g2", ["fieldref"], "other"), ("g3", ["re", "m", "s"], "x.y"), ("g4", ["cased", "startswith"], ["Aa", "Bb"]),
  ("g5", [], [1.5, "s"]), ("g6", ["neq", "contains"], "n"), ("g7", ["endswith", "all"], ["e1", "e2"]), ("g8", ["wide", "base64"], "A"),
- ("g9", [], "a\\\\*b"), ("h1", ["contains"], "c:\\x"), ("h2", ["cidr"], "10.0.0.0/7"), ("h3", ["re"], ["a.*b", "c?d"]), ("h4", [], []),
+ ("g9", [], "a\\\\*b"), ("h1", ["contains"], "c:\\x"), ("h2", ["cidr"], "10.0.0.0/7"), ("h3", ["re"], ["a.*b", "c?d"]), ("h4", [], []), ("h5", ["expand"], "x\\%a\\%"),
 ]
 KW = [["foo", "ba*r"], [1], ["single"], ["k1", 2]]
 out = ["----------------------------- MODULE RuleItems -----------------------------",
